@@ -835,3 +835,44 @@ Proof.
   split; [intros b; cbn; repeat split; try reflexivity; intros id [<-|[]]; reflexivity|].
   repeat split; vm_compute; reflexivity.
 Qed.
+
+(* ------------------------------------------------------------------ one report per websocket message *)
+
+Lemma emit_times_gaps now waits : gaps_geb rate_limit_ms (emit_times now waits) = true.
+Proof.
+  revert now. induction waits as [|w r IH]; intros now; [reflexivity|].
+  cbn [emit_times]. destruct r as [|w2 r2]; [reflexivity|].
+  specialize (IH (now + rate_limit_ms + Z.max 0 w)%Z). cbn [emit_times] in IH |- *.
+  cbn [gaps_geb] in IH |- *. rewrite IH. unfold rate_limit_ms. 
+  assert (H : (1000 <=? now + 1000 + Z.max 0 w + 1000 + Z.max 0 w2 - (now + 1000 + Z.max 0 w))%Z = true) by lia.
+  unfold rate_limit_ms in *. rewrite H. reflexivity.
+Qed.
+
+Lemma pump_singletons g : forall fuel ts lats,
+  (length ts <= fuel)%nat -> gaps_geb g ts = true -> Forall (fun l => 0 <= l < g)%Z lats ->
+  (0 < g)%Z -> pump fuel ts lats = map (fun t => [t]) ts.
+Proof.
+  induction fuel as [|k IH]; intros ts lats Hf Hg Hl Hpos.
+  - destruct ts; [reflexivity|cbn [length] in Hf; lia].
+  - destruct ts as [|t r]; [reflexivity|]. cbn [pump map].
+    assert (Hlat : (0 <= hd 0%Z lats < g)%Z) by (destruct Hl; cbn [hd]; lia).
+    assert (Htl : Forall (fun l => (0 <= l < g)%Z) (tl lats)) by (destruct Hl; cbn [tl]; [constructor|assumption]).
+    destruct r as [|t2 r2].
+    + cbn [take_until]. f_equal. destruct k; reflexivity.
+    + cbn [gaps_geb] in Hg. apply andb_true_iff in Hg. destruct Hg as [H1 H2].
+      cbn [take_until]. assert (E : (t2 <=? t + hd 0%Z lats)%Z = false) by lia. rewrite E.
+      f_equal. apply IH; [cbn [length] in *; lia|exact H2|exact Htl|exact Hpos].
+Qed.
+
+(* the rate limit (at most one report a second) means that a viewer whose pump takes each report
+   within a second of its being queued never finds two reports in one websocket message *)
+Theorem one_report_per_message_lemma now waits lats :
+  Forall (fun l => 0 <= l < rate_limit_ms)%Z lats ->
+  messages (emit_times now waits) lats = map (fun t => [t]) (emit_times now waits).
+Proof.
+  intros Hl. unfold messages. apply (pump_singletons rate_limit_ms); [lia|apply emit_times_gaps|exact Hl|reflexivity].
+Qed.
+
+(* without a gap between two reports the second travels in the first one's message *)
+Lemma merged_message_example : messages [5000; 5000; 7000]%Z [0; 0; 0]%Z = [[5000; 5000]; [7000]]%Z.
+Proof. vm_compute. reflexivity. Qed.
